@@ -269,21 +269,6 @@ theorem local_refines (U : Path → Prop) (hU : Universe U) (root : List Char) (
     | none => rfl
     | some d => simp only [sinkAfter_eq sink c hc' d]
 
-/-- a prefix with a normal directory part is `dirname/basename` with valid directory segments -/
-theorem normalPrefix_split (pfx : Name) (h : normalPrefix pfx = true) :
-    ∃ ds bn, (∀ s ∈ ds, validSeg s = true) ∧ '/' ∉ bn ∧ pfx = joinSlash (ds ++ [bn]) := by
-  have hne := splitSlash_ne_nil pfx
-  obtain ⟨ds, bn, hsp⟩ : ∃ ds bn, splitSlash pfx = ds ++ [bn] := by
-    rcases List.eq_nil_or_concat (splitSlash pfx) with h0 | ⟨l, x, h0⟩
-    · exact absurd h0 hne
-    · exact ⟨l, x, by simpa using h0⟩
-  refine ⟨ds, bn, ?_, ?_, ?_⟩
-  · unfold normalPrefix at h
-    rw [hsp] at h
-    simpa using h
-  · exact splitSlash_seg_no_slash pfx bn (by rw [hsp]; simp)
-  · rw [← hsp, joinSlash_splitSlash]
-
 /-- **Local listing, as the code computes it.**  For a repository location with at least one pathlib part and a prefix whose
 directory part is normal, `list_files` (split the prefix, scan, recurse, drop `*.tmp`, slice by the root string) returns
 exactly the live names that start with the prefix *and do not end in `.tmp`*, each once. -/
@@ -360,6 +345,45 @@ theorem abnormal_prefix_witness :
     LocalFS.list "repo".toList (FS.empty.upload ["a".toList, "b".toList] [1]) "a//".toList = .names ["a/b".toList] ∧
     ¬ ("a//".toList <+: "a/b".toList) := by
   refine ⟨by decide, by decide, by decide⟩
+
+/-- **An upload replaces the object atomically**: after each of the file-system steps of an upload (create the parent
+directories, create the temporary, write it, rename it over the destination) every name that does not end in `.tmp` reads —
+through `exists`, `download` and listings, i.e. through the abstraction — either as before the upload or as after it; the
+switch happens at the rename.  (A failed attempt's cleanup and power-loss durability are not modelled here.) -/
+theorem local_upload_atomic (fs : FS) (n : Name) (rnd : List Char) (d : Bytes) (k : Nat) :
+    (∀ m, tmpName m = false → (uploadState fs (splitSlash n) rnd d k).abs m = fs.abs m) ∨
+    (∀ m, tmpName m = false → (uploadState fs (splitSlash n) rnd d k).abs m = (fs.upload (splitSlash n) d).abs m) := by
+  have key : ∀ m, tmpName m = false → splitSlash m ≠ tempPath (splitSlash n) rnd := fun m hm => ne_tempPath m hm _ _
+  have hget : ∀ (F : List (Path × Bytes)) (v : Bytes) (m : Name), tmpName m = false →
+      alookup (ainsert F (tempPath (splitSlash n) rnd) v) (splitSlash m) = alookup F (splitSlash m) := by
+    intro F v m hm
+    rw [alookup_ainsert, if_neg (key m hm)]
+  match k with
+  | 0 => left; intro m _; rfl
+  | 1 => left; intro m _; rfl
+  | 2 =>
+    left; intro m hm
+    simp only [FS.abs, FS.get, uploadState_2, hget _ _ m hm]
+  | 3 =>
+    left; intro m hm
+    simp only [FS.abs, FS.get, uploadState_3, hget _ _ m hm]
+  | k + 4 =>
+    right; intro m hm
+    rw [uploadState_final]
+    simp only [FS.abs, FS.get, FS.upload, FS.write, FS.mkdirs]
+    by_cases hv : validName m = true
+    · simp only [hv, if_true, alookup_ainsert (k := splitSlash m) (n := splitSlash n)]
+      by_cases hp : splitSlash m = splitSlash n
+      · simp only [hp, if_true]
+      · simp only [hp, if_false]
+        rw [alookup_aerase_ne _ _ _ (key m hm), hget _ _ m hm, hget _ _ m hm]
+    · simp only [hv, Bool.false_eq_true, if_false]
+
+/-- what the models assume about the source beyond the constants they use (read from the current source by the extractor):
+the B2 loop stops exactly when `nextFileName` is null, B2 uploads send the quoted name, `exists` maps exactly a 404 to False -/
+theorem model_assumptions_hold :
+    Gen.b2LoopStopsOnNullNext = true ∧ Gen.b2UploadNameQuoted = true ∧
+    Gen.s3ExistsFalseStatus = 404 ∧ Gen.b2ExistsFalseStatus = 404 ∧ Gen.storeSectionOk = true := by decide
 
 /-! ## histories -/
 
